@@ -154,6 +154,7 @@ func replayDet(args []string) int {
 		}
 	}
 	thin := op.int("thin", 1)
+	thinSens := op.int("thinsens", 1)
 	idx := 0
 	handle := func(raw []byte) {
 		idx++
@@ -167,8 +168,10 @@ func replayDet(args []string) int {
 		var run func() (string, string)
 		switch c.Fam {
 		case "bind":
-			if h := sha256.Sum256(raw); !c.Sens && thin > 1 && int(h[0])%thin != 0 { // by content, so that every process thins alike
-				return // the order-insensitive bind cases are thinned out in the quick tier
+			// by content, so that every process thins alike: the order-insensitive bind cases one in `thin`, the sensitive ones
+			// (two or more failing entries, or keys colliding on one field) one in `thinsens`
+			if h := sha256.Sum256(raw); (!c.Sens && thin > 1 && int(h[0])%thin != 0) || (c.Sens && thinSens > 1 && int(h[1])%thinSens != 0) {
+				return
 			}
 			var bc bindCase
 			json.Unmarshal(raw, &bc)
